@@ -14,7 +14,8 @@ RULE = ('Pairs with explicit sign classes (all-negative, all-positive, mixed, co
         'ndim 1..3 for the upper bound, both inner distances, engines Python / use_c / ed_cc / dtw_cc / exported C '
         'functions through ctypes. Oracles: lb_keogh <= reference DTW (same window), ED >= reference penalty-free DTW, '
         'each implementation of a bound equals the independent reference bound, only_ub returns ED. Non-trivial: '
-        'LB > 0, or unequal lengths, or ndim > 1, or negative values present.')
+        'LB > 0, or unequal lengths, or ndim > 1, or negative values present.'
+        " The Python LB_Keogh is also called with the inner distance as an object: the library's own classes (class and instance: same value as for the name) and user-supplied ones (|x-y|^3, 2|x-y|, |x-y|, |x-y|^4: the bound under that inner distance, never above the DTW distance under it).")
 ASSUMPTIONS = ['finite doubles |x| <= 1e3, lengths <= 12', 'inequalities carry a relative slack of 1e-9']
 
 
